@@ -1047,7 +1047,7 @@ func TestC17Retry(t *testing.T) {
 	vt.CheckBubble(t, "C17", func(t *vt.T) {
 		p := SimProfile{Prop: "C17", Mutations: true, MaxSteps: 50, MaxFiles: 3}
 		conf := genSimConf(t, p)
-		conf.MinAge = []time.Duration{20 * time.Second, 2 * time.Minute, 10 * time.Minute}[t.Pick("minAge", 3)]
+		conf.MinAge = []time.Duration{20 * time.Second, 2 * time.Minute, 10 * time.Minute, 0}[t.Pick("minAge", 4)]
 		s := NewSim(t, p.Prop, conf)
 		defer s.Close()
 		nf := t.IntRange("nFiles", 1, p.MaxFiles)
@@ -1063,6 +1063,8 @@ func TestC17Retry(t *testing.T) {
 		s.StartSender()
 		steps := t.IntRange("nSteps", 8, p.MaxSteps)
 		flipped := map[string]bool{}
+		emptied := map[string]bool{} // truncated to zero bytes and not rewritten since: ineligible
+		s.emptyWatch = true
 		changedAfterFlip := false
 		for i := 0; i < steps; i++ {
 			pend := s.Pending()
@@ -1084,6 +1086,29 @@ func TestC17Retry(t *testing.T) {
 			case 2:
 				names := s.names()
 				name := names[t.Pick("victim", len(names))]
+				if conf.MinAge == 0 && t.Weighted("truncate", 2, 1) == 1 {
+					// truncated to nothing (possible only as the last draw of a step, so that
+					// replays of the other minimum ages keep their meaning)
+					pth := filepath.Join(s.srcDir, name)
+					now := time.Now()
+					if last, ok := s.lastMtime[name]; ok && !now.After(last) {
+						now = last.Add(time.Millisecond)
+					}
+					s.lastMtime[name] = now
+					tmp := pth + ".tr.lck"
+					os.WriteFile(tmp, nil, 0644)
+					os.Chtimes(tmp, now, now)
+					os.Rename(tmp, pth)
+					emptied[name] = true
+					t.Note("@%s source %s truncated to zero bytes", s.clock(), name)
+					t.Class("file-truncated-to-empty")
+					s.lastPerturb = time.Now()
+					if flipped[name] {
+						changedAfterFlip = true
+					}
+					s.observe()
+					continue
+				}
 				if t.Bool("touch") {
 					pth := filepath.Join(s.srcDir, name)
 					now := time.Now()
@@ -1106,6 +1131,7 @@ func TestC17Retry(t *testing.T) {
 						size = len(s.lastVersion(name).data)
 					}
 					s.WriteSource(name, size, 0)
+					delete(emptied, name)
 					t.Class("file-rewritten")
 				}
 				if flipped[name] {
@@ -1124,7 +1150,7 @@ func TestC17Retry(t *testing.T) {
 		if !ok {
 			for _, name := range s.names() {
 				v := s.lastVersion(name)
-				if s.delivered(name, v.hash) {
+				if emptied[name] || s.delivered(name, v.hash) {
 					continue
 				}
 				var got []rng
